@@ -88,6 +88,26 @@ def pred_check(v, tier, seed):
                     m = re.search(rf"{key}=(\w+)", l)
                     if m and m.group(1) != want:
                         return f"{what}: answers {m.group(1)}, by the documentation {want}; state: {l[:300]}"
+                # invariants::received_messages by its documentation ("matches exactly the expected messages; duplications or
+                # unexpected messages are not allowed"), for the first process and the expected sets D, D minus its first element,
+                # D plus a foreign message, D = the distinct payloads of its outbox
+                nm_ = re.search(r" N\[(.*?)\] E\[(.*?)\] A\[", l)
+                pm = re.search(r"irm=([01p]{3})", l)
+                first = re.search(r"\{([^{}/]+)", nm_.group(1)) if nm_ else None
+                ob = re.search(r";o=\[(.*)\]$", first.group(1)) if first else None
+                if pm and ob is not None and "p" not in pm.group(1):
+                    toks = ob.group(1).split(",") if ob.group(1) else []
+                    if len(toks) % 2 == 0 and all(t.startswith("=") for t in toks[1::2]) and not any(t.startswith("=") for t in toks[0::2]):
+                        out = toks[1::2]
+                        D = list(dict.fromkeys(out))
+                        noev = nm_.group(2) == ""
+                        def err(exp):
+                            return (len(out) > len(exp) or (len(out) < len(exp) and noev) or len(set(out)) < len(out)
+                                    or any(x not in exp for x in out))
+                        want = "".join("1" if err(e) else "0" for e in (set(D), set(D[1:]), set(D + ["zz"])))
+                        if pm.group(1) != want:
+                            return (f"invariants::received_messages with expected sets (D, D minus first, D plus foreign), D = distinct payloads of the outbox "
+                                    f"{out}: rejects = {pm.group(1)}, by the documentation {want}; state: {l[:300]}")
         return None
     mc_suite.report_disagreements(v, bad, "predicates", fields, judge_impl=judge_impl)
     # D11: at the start state of a run (depth in the current run = 0) `state_depth_current_run(0)` must accept by its
